@@ -557,10 +557,20 @@ def _task_value(v, i):
     return v * v + 3 * i + 1
 
 
+class FakeGrid:
+    """Stand-in for a computational grid: real tasks are dicts that carry one."""
+    def __init__(self, n_cells):
+        self.n_cells = n_cells
+
+
 def harness_fn(task, extra=None):
     """Task function handed to process_map: sleeps as long as the task says,
-    logs start/finish, returns a value that identifies (index, payload)."""
-    i, delay_ms, v, fail = task
+    logs start/finish, returns a value that identifies (index, payload).
+    Tasks are tuples or, like the real ones, dicts carrying a grid of some size."""
+    if isinstance(task, dict):
+        i, delay_ms, v, fail = task['i'], task['delay_ms'], task['v'], task['fail']
+    else:
+        i, delay_ms, v, fail = task
     t0 = time.monotonic()
     if delay_ms:
         time.sleep(delay_ms / 1000.0)
@@ -632,6 +642,10 @@ def run_process_map(case):
     n = case['n']
     tasks = [(i, case['delays'][i], case['values'][i], i == case.get('fail_at'))
              for i in range(n)]
+    if case.get('sizes'):       # dict tasks with grids of different cell counts
+        tasks = [{'i': t[0], 'delay_ms': t[1], 'v': t[2], 'fail': t[3], 'model': None,
+                  'grid': FakeGrid(case['sizes'][t[0]]), 'efield': None, 'solver_opts': {}}
+                 for t in tasks]
     its = [tasks]
     if case.get('two_iterables'):
         its.append(list(range(100, 100 + n)))
@@ -705,11 +719,16 @@ def gen_pm_cases(ctx):
                 for _ in range(reps):
                     n = rng.randint(3, 12)
                     scale = 90.0 / n if mw > 1 else 0.0     # sequential: no sleeping
-                    cases.append(dict(kind='process_map', n=n, max_workers=mw, pattern=pat,
-                                      tqdm_masked=masked,
-                                      delays=make_delays(rng, n, pat, scale),
-                                      values=[rng.randint(-50, 50) for _ in range(n)],
-                                      two_iterables=rng.random() < 0.25))
+                    c = dict(kind='process_map', n=n, max_workers=mw, pattern=pat,
+                             tqdm_masked=masked,
+                             delays=make_delays(rng, n, pat, scale),
+                             values=[rng.randint(-50, 50) for _ in range(n)],
+                             two_iterables=rng.random() < 0.25)
+                    if rng.random() < 0.35:     # tasks of different sizes, like real ones
+                        ab = rng.sample([64, 96, 128, 256, 512], 3)
+                        c['sizes'] = ([ab[0], ab[1]] * n)[:n] if rng.random() < 0.5 \
+                            else [rng.choice(ab) for _ in range(n)]
+                    cases.append(c)
     # edge stream: empty list, one task, non-positive worker counts
     for mw in (0, 1, 4, -2):
         for masked in (False, True):
@@ -800,7 +819,7 @@ def correspondence_pm(ctx, dis, hist):
                min(case['max_workers'], 2), case['tqdm_masked'])
         hist['pm:' + '/'.join(map(str, key))] = hist.get('pm:' + '/'.join(map(str, key)), 0) + 1
         brief = {k: case[k] for k in ('n', 'max_workers', 'pattern', 'tqdm_masked', 'delays',
-                                      'values', 'two_iterables') if k in case}
+                                      'values', 'two_iterables', 'sizes') if k in case}
         if 'fail_at' in case:
             brief['fail_at'] = case['fail_at']
             # property on the malformed stream: the failure surfaces as the task's own
@@ -992,7 +1011,17 @@ def build_sim(spec, max_workers, file_dir):
     if spec.get('freq_keys'):
         freqs = {k: v for k, v in zip(spec['freq_keys'], spec['freqs'])}
     survey = emg3d.Survey(srcs, recs, freqs, noise_floor=1e-18, relative_error=0.05)
-    sim = emg3d.Simulation(survey, model, max_workers=max_workers, gridding='same',
+    gridding, gopts = 'same', None
+    if spec.get('freq_nx'):
+        # computational grids of different cell counts: frequency k has freq_nx[k] cells in x
+        # over the same extent (gridding='dict')
+        ext = float(hs[0].sum())
+        fkeys = list(survey.frequencies.keys())
+        gr = {fk: emg3d.TensorMesh([np.ones(nx) * ext / nx, hs[1], hs[2]], origin)
+              for fk, nx in zip(fkeys, spec['freq_nx'])}
+        gridding, gopts = 'dict', {sk: dict(gr) for sk in survey.sources.keys()}
+    sim = emg3d.Simulation(survey, model, max_workers=max_workers, gridding=gridding,
+                           gridding_opts=gopts,
                            file_dir=file_dir, solver_opts={'sslsolver': False, 'maxit': 30},
                            tqdm_opts=False, receiver_interpolation='linear', verb=-1)
     return sim
@@ -1212,6 +1241,43 @@ def dims_block_hits(rng, block, hist=None, stop_at_first=False):
     return hits
 
 
+def sized_grids_hits(rng, workers=(2, 3), hist=None):
+    """2 sources x 2 (3) frequencies whose computational grids have different cell
+    counts, the LATER frequency on the larger grid; in memory, several workers,
+    each slot against the sequential run."""
+    hits = []
+    for dims, nx in (((2, 2, 2), [4, 8]), ((2, 2, 3), [4, 8, 6])):
+        spec = gen_survey_spec(rng, dims=dims)
+        spec['shape'] = [4, 4, 4]
+        spec['h'] = [[200.0] * 4, [200.0] * 4, [200.0] * 4]
+        spec['prop'] = (spec['prop'] * 2)[:64]
+        spec['aniso'] = 'isotropic'
+        spec['freq_nx'] = nx
+        sim = build_sim(spec, 1, None)
+        sim.compute()
+        obs = sim.data.synthetic.data.copy() * spec['obs_scale']
+        ref = observe(build_sim(spec, 1, None), 'gradient', obs)
+        nt = dims[0] * dims[2]
+        for mw in workers:
+            cfg = dict(max_workers=mw, file_dir=False, what='gradient', pattern='reverse',
+                       delays=make_delays(rng, nt, 'reverse', 40.0 / nt), tqdm_masked=(mw == 3),
+                       recompute=False)
+            digs, comp = run_sim_config(spec, cfg, obs)
+            bad = compare_digests(ref, digs)
+            if hist is not None:
+                hist['sim:sized_grids/mem'] = hist.get('sim:sized_grids/mem', 0) + 1
+            if bad:
+                hits.append({'signature': 'simulation result depends on execution configuration',
+                             'kind': 'simulation', 'spec': spec, 'config': cfg,
+                             'observed': 'digests differ from the sequential run: '
+                                         + ', '.join(bad[:8]),
+                             'required': 'bit-identical to max_workers=1 (grids of '
+                                         f"{nx} x 4 x 4 cells for the frequencies)",
+                             'completion_order': comp})
+                return hits
+    return hits
+
+
 def correspondence_sim(ctx, dis, hist):
     nsurv = 4 if ctx.thorough else 2
     runs, perturbed, samples, distinct = 0, 0, [], set()
@@ -1268,6 +1334,17 @@ def correspondence_sim(ctx, dis, hist):
                     'impl': h['observed'], 'model': h['required'], 'spec_full': h['spec']})
     runs += 2 * nblock
     distinct.update(('dims', d) for d in DIMS_BLOCK[:nblock])
+    # computational grids of different sizes (later frequency on the larger grid)
+    for h in sized_grids_hits(ctx.rng, (2, 3) if ctx.thorough else (2,), hist):
+        dis.append({'what': 'parallel in-memory run with source/frequency dependent grids '
+                            'differs from the sequential run',
+                    'signature': h['signature'],
+                    'case': {'dims': h['spec']['dims'], 'freq_nx': h['spec']['freq_nx'],
+                             'config': {k: h['config'][k] for k in ('max_workers', 'file_dir',
+                                                                    'what')}},
+                    'impl': h['observed'], 'model': h['required'], 'spec_full': h['spec']})
+    runs += 2
+    distinct.add(('sized_grids',))
     # arbitrary string keys (file names must not depend on what the keys contain)
     spec = gen_survey_spec(ctx.rng, adversarial_keys=True)
     obs, ref = reference(spec)
@@ -1339,7 +1416,8 @@ def _pm_hit(case, r, exp):
     return {'signature': 'process_map result depends on completion order',
             'kind': 'process_map',
             'case': {k: case[k] for k in ('kind', 'n', 'max_workers', 'pattern', 'tqdm_masked',
-                                          'delays', 'values', 'two_iterables')},
+                                          'delays', 'values', 'two_iterables', 'sizes')
+                     if k in case},
             'observed': r.get('result', r.get('error')),
             'required': exp,
             'completion_order': [e[1] for e in sorted(r['events'], key=lambda e: e[4])]}
@@ -1370,16 +1448,23 @@ def search(ctx, broken):
                             tqdm_masked=masked, delays=make_delays(rng, n, pat, 12.0),
                             values=[rng.randint(-50, 50) for _ in range(n)],
                             two_iterables=False)
-                r = run_process_map(case)
-                exp = expected_result(case)
-                if r.get('result') != exp:
-                    hits.append(_pm_hit(case, r, exp))
+                for sizes in (None, [64, 512] * 4, [128, 512, 256, 128, 512, 64, 256, 64]):
+                    cs = dict(case, sizes=sizes) if sizes else case
+                    r = run_process_map(cs)
+                    exp = expected_result(cs)
+                    if r.get('result') != exp:
+                        hits.append(_pm_hit(cs, r, exp))
+                        break
+                if hits:
                     break
             if hits:
                 break
         if hits:
             break
-    # 2. deterministic first block of survey dimensions in file_dir mode
+    # 2. grids of different sizes, in memory, several workers
+    if not hits:
+        hits += sized_grids_hits(rng, (2, 3, 4))
+    # 2b. deterministic first block of survey dimensions in file_dir mode
     if not hits:
         hits += dims_block_hits(rng, DIMS_BLOCK, stop_at_first=True)
     # 3. one survey, the sharpest configurations
